@@ -20,6 +20,10 @@
                    no other invocation running, not after a cancel from the handler / the serial target
                    queue, at most one after a foreign cancel returned, never after the cancel handler,
                    on the target queue;
+       RStart(t)   IRegh/RTake/RStart: the registration handler runs once, under the drain lock, on the target
+                   queue, after installation and before the first event handler start; a cancel issued from it is
+                   an own-context cancel (so is the flags value the thread then holds: the next HStart by that
+                   thread needs a LATER load without CANCELED);
        ChStart(t)  CcTake/ChStart: {CANCELED, DELETED} set, unote unregistered, kernel registration
                    gone (the harness asks the kernel: /proc/self/fdinfo of the epoll descriptor; with
                    the optional C16 probes also: after the epoll_ctl(DEL) probe), no handler running,
@@ -55,8 +59,9 @@ XDirect == xk.kind = "data"
 KEEP == <<lane, exe, kern, pc, lv, cli>>       \* Cancel.tla variables the projection does not carry
 
 GH0 == [hRunning |-> 0, hStarts |-> 0, ownCancel |-> FALSE, foreignOr |-> FALSE, lateStarts |-> 0,
-        chStarts |-> 0, chEnds |-> 0, cawRet |-> FALSE, startsAfterCaw |-> 0, runningAtCawRet |-> FALSE, bad |-> ""]
-SRC0(ch) == [dqf |-> {}, du |-> DU0, installed |-> FALSE, pending |-> 0, hnd |-> [ev |-> TRUE, cancel |-> ch]]
+        chStarts |-> 0, chEnds |-> 0, cawRet |-> FALSE, startsAfterCaw |-> 0, runningAtCawRet |-> FALSE,
+        regStarts |-> 0, regRunning |-> 0, bad |-> ""]
+SRC0(ch) == [dqf |-> {}, du |-> DU0, installed |-> FALSE, pending |-> 0, hnd |-> [ev |-> TRUE, cancel |-> ch, reg |-> FALSE]]
 
 TInit == /\ Init /\ l = 2 /\ xk = [kind |-> "data", serial |-> TRUE, ch |-> TRUE]
          /\ ld = [t \in TIDs |-> {"?"}] /\ owner = -2 /\ knownF = FALSE /\ knownDU = FALSE
@@ -149,7 +154,7 @@ THStart ==
     /\ LET t == Rec.t IN
        /\ Rec.on /\ OwnerOK(t)
        /\ "CANCELED" \notin ld[t]                      \* IPend: committed on flags without CANCELED
-       /\ gh.hRunning = 0 /\ gh.chStarts = 0
+       /\ gh.hRunning = 0 /\ gh.chStarts = 0 /\ gh.regRunning = 0
        /\ ~gh.ownCancel
        /\ (foreignRet => gh.lateStarts = 0)
        /\ gh' = [gh EXCEPT !.hRunning = 1, !.hStarts = @ + 1, !.lateStarts = IF foreignRet THEN @ + 1 ELSE @,
@@ -159,7 +164,8 @@ THEnd == /\ Ev("HEnd") /\ Consume /\ gh.hRunning = 1 /\ gh' = [gh EXCEPT !.hRunn
 TCancelCall ==
     /\ Ev("CancelCall") /\ Consume
     /\ (Rec.ctx = "handler" => gh.hRunning = 1)
-    /\ (Rec.own <=> (Rec.ctx = "handler" \/ (Rec.ctx = "tqitem" /\ xk.serial)))
+    /\ (Rec.ctx = "reghandler" => gh.regRunning = 1)
+    /\ (Rec.own <=> (Rec.ctx \in {"handler", "reghandler"} \/ (Rec.ctx = "tqitem" /\ xk.serial)))
     /\ gh' = [gh EXCEPT !.ownCancel = @ \/ Rec.own]
     /\ UNCHANGED src /\ Same
 TCancelRet ==
@@ -188,6 +194,17 @@ TChStart ==
        /\ (~XDirect => ~src.du.reg)
     /\ gh' = [gh EXCEPT !.chStarts = 1]
     /\ UNCHANGED src /\ Same
+\* IRegh / RTake / RStart: once, on the target queue under the drain lock, before the first event delivery, never on a
+\* source the calling thread has seen cancelled, never after the cancel handler
+TRStart ==
+    /\ Ev("RStart") /\ Consume
+    /\ LET t == Rec.t IN
+       /\ Rec.on /\ OwnerOK(t)
+       /\ gh.regStarts = 0 /\ gh.hStarts = 0 /\ gh.hRunning = 0 /\ gh.chStarts = 0
+       /\ src.du.reg \/ ~knownDU                       \* after installation
+    /\ gh' = [gh EXCEPT !.regStarts = 1, !.regRunning = 1]
+    /\ UNCHANGED src /\ Same
+TREnd == /\ Ev("REnd") /\ Consume /\ gh.regRunning = 1 /\ gh' = [gh EXCEPT !.regRunning = 0] /\ UNCHANGED src /\ Same
 TChEnd == /\ Ev("ChEnd") /\ Consume /\ gh.chStarts = 1 /\ gh.chEnds = 0 /\ gh' = [gh EXCEPT !.chEnds = 1]
           /\ UNCHANGED src /\ Same
 TAct == /\ Ev("ActCall") /\ Consume /\ act' = TRUE
@@ -207,7 +224,7 @@ TOther == /\ l <= Len(Tr) /\ Rec.e \in {"ActRet", "SuspCall", "SuspRet", "ResCal
           /\ UNCHANGED <<src, gh>> /\ Same
 
 TNext == TReset \/ TF \/ TDU \/ TST \/ TPD \/ TP \/ THStart \/ THEnd \/ TCancelCall \/ TCancelRet \/ TCawCall \/ TCawRet
-         \/ TChStart \/ TChEnd \/ TAct \/ TPeerClose \/ TQuiesce \/ TOther
+         \/ TChStart \/ TChEnd \/ TRStart \/ TREnd \/ TAct \/ TPeerClose \/ TQuiesce \/ TOther
 TSpec == TInit /\ [][TNext]_tvars
 
 MaxL == IF TLCGet(1) < l THEN TLCSet(1, l) ELSE TRUE
